@@ -654,7 +654,16 @@ def judge(ctx, runs, label):
             continue
         ev = r["events"][v["at"] - 1]
         cl = v["clauses"]
-        if any(c.startswith(("Harness.", "Trace.")) for c in cl):
+        harness = [c for c in cl if c.startswith(("Harness.", "Trace."))]
+        # clauses TLC decided on the call itself, independent of the
+        # reference compile
+        indep = [c for c in cl if c.startswith(("Total.", "PositionInside."))]
+        if harness == ["Harness.ReferenceCompileOk"] and indep:
+            # the reference compile (fresh compiler, repository with the same
+            # history) is unusable AND the call itself escapes / misplaces
+            # its error: the comparison clauses say nothing, the others stand
+            cl = indep
+        elif harness:
             raise vlib.MachineryError(
                 "C09 harness assumption broken (%s) on session %r: %s %s\n%s"
                 % (cl, r["ses"], ev["out"], ev.get("msg"),
